@@ -302,6 +302,7 @@ def run(ctx, tier):
     ctx.rule("S3", "every offset behind a buffer edit position is shifted or reassigned on the path")
     ctx.rule("S4", "members are owning value types; copy/move not user-written")
     ctx.rule("S5", "buffer/components private; friends frozen")
+    ctx.rule("S6", "byte accounting: on every path of an editor, each written offset ends where the edits moved its boundary")
     cfgs = C.configs_for(tier, thorough=["release", "ssse3", "avx512", "devchecks", "amalgamated", "nopattern"])
     fxs = C.load_configs(ctx, cfgs)
     for name in cfgs:
@@ -309,9 +310,13 @@ def run(ctx, tier):
         check(ctx, fxs[name])
 
 
-def check(ctx, fx):
+def check_offsets_only(ctx, fx):
     eds = editors(fx)
     ctx.floor("S1", len(eds), 20, "functions that shift component offsets")
+    from rules import c07_acct
+    nfun, npath = c07_acct.check(ctx, fx, eds, "S6")
+    ctx.floor("S6", nfun, 18, "editor functions simulated")
+    ctx.floor("S6", npath, 140, "accounted paths with buffer edits")
     nshift = 0
     for f, binding in eds:
         mon = OffsetMonitor(fx)
@@ -379,6 +384,10 @@ def check(ctx, fx):
                        where=loc.replace("/repo/", ""))
     ctx.floor("S1", nshift, 80, "compound shifts of component offsets")
 
+
+
+def check(ctx, fx):
+    check_offsets_only(ctx, fx)
     # ---- S4 ------------------------------------------------------------------
     owning_ok = ("std::string", "std::optional<std::string>", "std::optional<uint16_t>", "bool", "uint32_t",
                  "ada::url_components", "url_components", "ada::scheme::type", "ada::url_host_type", "url_host_type",
